@@ -183,6 +183,11 @@ def r184(report, index):
         ('latin-1 names, latin-1 stream', 'latin-1', ['\u00e9t\u00e9']),
         ('names outside the stream charset', 'ascii', ['h\u00e9llo']),
         ('names outside latin-1', 'latin-1', ['\u4f60\u597d']),
+        # every alignment of bytes whose base64 digits are `+` and `/`
+        # (the two digits the URL-safe alphabet replaces)
+        ('names whose base64 uses + and /', 'utf8', [
+            '>>>', 'a>>>', 'ab>>>', '???', 'a???', 'ab???',
+            '\u00ff\u00fe\u00fb']),
     ]
     for label, enc, names in cases:
         written = []
@@ -195,7 +200,10 @@ def r184(report, index):
         ev.functions['normrelpath'] = lambda b, t: path_evaluator(
             utils).call(nrp, [b, t])[0]
         ev.functions['json.dumps'] = json.dumps
-        ev.functions['base64.b64encode'] = base64.b64encode
+        for fname in dir(base64):
+            if not fname.startswith('_') and callable(getattr(base64,
+                                                              fname)):
+                ev.functions['base64.' + fname] = getattr(base64, fname)
         ev.functions['encode_mappings'] = lambda m: ''
         outcome = None
         try:
@@ -226,7 +234,14 @@ def r184(report, index):
         if outcome is None and marker in text:
             head, _, payload = text.partition(marker)[2].partition(',')
             try:
-                got = json.loads(base64.b64decode(payload).decode(head))
+                got = json.loads(base64.b64decode(
+                    payload, validate=True).decode(head))
+                if label.endswith('+ and /') and not (
+                        '+' in payload and '/' in payload):
+                    raise AnalysisError('R18.4: the case meant to need the '
+                                        'digits + and / does not')
+            except AnalysisError:
+                raise
             except Exception as e:
                 got = 'undecodable (%s)' % type(e).__name__
         ok = isinstance(got, dict) and got.get('names') == names and \
@@ -240,6 +255,18 @@ def r184(report, index):
 
 class Fault(Exception):
     """an injected failure of a stand-in"""
+
+
+class Interrupt(BaseException):
+    """an injected failure that is not an Exception (KeyboardInterrupt,
+    SystemExit, GeneratorExit are of this kind)"""
+
+
+def boom(step, fault):
+    if fault == step + ' fails':
+        raise Fault(step)
+    if fault == step + ' interrupted':
+        raise Interrupt(step)
 
 
 class ECMASyntaxError(Exception):
@@ -304,7 +331,7 @@ def outcome_of(call):
         return ('raises', e.text.split('(')[0], e.text)
     except AnalysisError:
         raise
-    except Exception as e:      # an injected fault propagating
+    except (Exception, Interrupt) as e:  # an injected fault propagating
         return ('raises', type(e).__name__, str(e))
 
 
@@ -317,29 +344,27 @@ def r181(report, m):
                      '(fault-injection table)', floor=8)
     read = need_function(m, 'read')
     faults = ('none', 'factory fails', 'read fails', 'syntax error',
-              'parser fails')
+              'parser fails', 'factory interrupted', 'read interrupted',
+              'parser interrupted')
     for arrangement in ('factory', 'open stream'):
         for fault in faults:
-            if fault == 'factory fails' and arrangement != 'factory':
+            if fault.startswith('factory ') and arrangement != 'factory':
                 continue
             rec = Stream('src.js')
 
             def do_read(fault=fault):
-                if fault == 'read fails':
-                    raise Fault('read')
+                boom('read', fault)
                 return 'text'
             sobj = stream_obj(rec, do_read)
 
             def factory(fault=fault, sobj=sobj):
-                if fault == 'factory fails':
-                    raise Fault('factory')
+                boom('factory', fault)
                 return sobj
 
             def parser(text, fault=fault):
                 if fault == 'syntax error':
                     raise ECMASyntaxError('bad token')
-                if fault == 'parser fails':
-                    raise Fault('parser')
+                boom('parser', fault)
                 return Obj('ES5Program', sourcepath=None)
             stream = ('pyfunc', factory) if arrangement == 'factory' \
                 else sobj
@@ -347,7 +372,7 @@ def r181(report, m):
             out = outcome_of(lambda: ev.call(
                 read, [('pyfunc', parser), stream])[0])
             want_closes = 1 if arrangement == 'factory' and \
-                fault != 'factory fails' else 0
+                not fault.startswith('factory ') else 0
             label = '%s, %s' % (arrangement, fault)
             problems = []
             if rec.closes != want_closes:
@@ -366,7 +391,9 @@ def r181(report, m):
                     problems.append('the syntax error is not re-raised '
                                     'with the stream name (%r)' % (out,))
             else:
-                if out[0] != 'raises' or out[1] != 'Fault':
+                if out[0] != 'raises' or out[1] != (
+                        'Interrupt' if fault.endswith('interrupted')
+                        else 'Fault'):
                     problems.append('the failure does not propagate (%r)'
                                     % (out,))
             r1.check(not problems, 'read: ' + label, 'io.read(%s)' % label,
@@ -387,11 +414,14 @@ def r182(report, m):
     for out_kind in ('factory', 'open'):
         for map_kind in ('none', 'same', 'factory', 'open'):
             arrangements.append((out_kind, map_kind))
-    faults = ('none', 'unparser fails', 'output factory fails',
-              'sourcemap.write fails', 'map factory fails',
-              'write_sourcemap fails')
+    steps = ('unparser', 'output factory', 'sourcemap.write',
+             'map factory', 'write_sourcemap')
+    faults = ('none',) + tuple(s_ + ' fails' for s_ in steps) + tuple(
+        s_ + ' interrupted' for s_ in steps)
     for out_kind, map_kind in arrangements:
-        for fault in faults:
+        for fault0 in faults:
+            # expectations depend on the step only, not on the kind
+            fault = fault0.replace(' interrupted', ' fails')
             if fault == 'output factory fails' and out_kind != 'factory':
                 continue
             if fault == 'map factory fails' and map_kind != 'factory':
@@ -402,14 +432,12 @@ def r182(report, m):
             out_obj, map_obj = stream_obj(out_rec), stream_obj(map_rec)
             log = []
 
-            def out_factory(fault=fault, o=out_obj):
-                if fault == 'output factory fails':
-                    raise Fault('output factory')
+            def out_factory(fault=fault0, o=out_obj):
+                boom('output factory', fault)
                 return o
 
-            def map_factory(fault=fault, o=map_obj):
-                if fault == 'map factory fails':
-                    raise Fault('map factory')
+            def map_factory(fault=fault0, o=map_obj):
+                boom('map factory', fault)
                 return o
             output = ('pyfunc', out_factory) if out_kind == 'factory' \
                 else out_obj
@@ -423,23 +451,20 @@ def r182(report, m):
                 smap = map_obj
             chunks = [('chunk', 1), ('chunk', 2)]
 
-            def unparser(node, fault=fault):
-                if fault == 'unparser fails':
-                    raise Fault('unparser')
+            def unparser(node, fault=fault0):
+                boom('unparser', fault)
                 return list(chunks)
 
-            def sm_write(cs, stream, normalize=True, fault=fault, log=log):
+            def sm_write(cs, stream, normalize=True, fault=fault0, log=log):
                 log.append(('write', list(cs), stream))
-                if fault == 'sourcemap.write fails':
-                    raise Fault('sourcemap.write')
+                boom('sourcemap.write', fault)
                 return (['m'], ['s'], ['n'])
 
-            def sm_write_map(mappings, sources, names, o, s_, fault=fault,
+            def sm_write_map(mappings, sources, names, o, s_, fault=fault0,
                              log=log, **kw):
                 log.append(('write_sourcemap', mappings, sources, names, o,
                             s_))
-                if fault == 'write_sourcemap fails':
-                    raise Fault('write_sourcemap')
+                boom('write_sourcemap', fault)
             node = Obj('ES5Program')
             ev = io_evaluator(m, {'sourcemap.write': sm_write,
                                   'sourcemap.write_sourcemap': sm_write_map})
@@ -447,7 +472,7 @@ def r182(report, m):
                 'ES5Program' or c == b_
             out = outcome_of(lambda: ev.call(
                 write, [('pyfunc', unparser), node, output, smap])[0])
-            label = 'output %s, map %s, %s' % (out_kind, map_kind, fault)
+            label = 'output %s, map %s, %s' % (out_kind, map_kind, fault0)
             problems = []
             opened_out = out_kind == 'factory' and fault not in (
                 'unparser fails', 'output factory fails')
@@ -466,7 +491,9 @@ def r182(report, m):
             if fault == 'none':
                 if out[0] != 'returns':
                     problems.append('raises %r' % (out,))
-            elif out[0] != 'raises' or out[1] != 'Fault':
+            elif out[0] != 'raises' or out[1] != (
+                    'Interrupt' if fault0.endswith('interrupted')
+                    else 'Fault'):
                 problems.append('the failure does not propagate (%r)'
                                 % (out,))
             if fault not in ('unparser fails', 'output factory fails'):
